@@ -47,7 +47,9 @@ EXHAUSTIVE = {'quick': True, 'thorough': True}
 TRUSTED = ['shuffle: the drawn permutations are obtained by replaying numpy.random.RandomState(seed).shuffle',
            'enum: numpy.random.permutation is replaced by a planned source while _fast_shuffle.py_func (the '
            'pure-Python body of the numba kernel) runs inside the real dinucleotide_shuffle',
-           'one-hot tensors are printed as (enc A [[codes]]) only after an exact round-trip check in Python']
+           'one-hot rows, results and planned draws are printed as hexadecimal digit strings (Spec.dnb/obn/sgn decode them '
+           'in Coq) only after an exact one-hot round-trip check in Python; other rows are printed as raw columns',
+           'compiled calls run in a worker process; a worker that dies is reported as a failing input']
 ASSUMPTIONS = ['RandomState.shuffle leaves a permutation of arange(k); numpy.random.permutation(k) returns a '
                'permutation of range(k) (hypotheses perms_ok / sig_ok of the theorems)',
                'the compiled walk is tied relationally (through the spec), the pure-Python walk exactly',
@@ -348,7 +350,7 @@ def outcome_lit(inp, out, transpose):
     if not out['ok']:
         return 'Err'
     if out['Y'] == 'shape' or out['Y'] is None:
-        return '(Ok [[[[[7]]]]])'          # not a (B, n, A, L) integral tensor: certainly wrong
+        return '(Ok [[[[7]]]])'          # not a (B, n, A, L) integral tensor: certainly wrong
     A = inp['A']
     Y = out['Y']
     if transpose:                           # shuffle: model is indexed [sample][example]
@@ -559,6 +561,13 @@ def generate(tier, rng):
 
 def shrink(inp):
     B = len(inp['seqs'])
+    if B > 3:
+        for lo, hi in ((0, B // 2), (B // 2, B)):
+            c = dict(inp)
+            c['seqs'] = inp['seqs'][lo:hi]
+            if inp['kind'] == 'enum':
+                c['plan'] = inp['plan'][lo:hi]
+            yield c
     if B > 1:
         for i in range(B):
             c = dict(inp)
